@@ -185,10 +185,13 @@ def make_value(spec, name, st, inputs):
         # a string with a literal skeleton and symbolic holes: ("strcat", [":param x: ", "str"]) -- holes are named <name>_<i>
         parts = []
         for i, part in enumerate(spec[1]):
-            if part == "str":
+            if part == "str" or (isinstance(part, tuple) and part[0] == "str-without"):
                 t = z3.Const("in_%s_%d" % (name, i), S)
                 inputs["%s_%d" % (name, i)] = ("str", t)
                 parts.append(t)
+                if isinstance(part, tuple):  # a hole that is any text without the listed characters (a domain restriction of the case, stated in its note)
+                    for ch in part[1]:
+                        st.pc.append(z3.Not(z3.Contains(t, z3.StringVal(ch))))
             else:
                 parts.append(z3.StringVal(part))
         return Sym(parts[0] if len(parts) == 1 else z3.Concat(*parts), "str")
